@@ -8,7 +8,7 @@ from ..faults import Injector
 from ..runner import Outcome
 from .c07 import JsonCodec
 
-LEVEL = "proof"
+LEVEL = "fault_enumeration"
 ASSUMPTIONS = ["a failed close() still releases the descriptor (Linux semantics); a failed remove leaves the file in place and a later close() may retry",
                "os.close really closes and os.remove really removes (observed through fstat / the directory, not proved)",
                "prompt finalisation of an abandoned generator relies on CPython reference counting (observed)"]
